@@ -130,7 +130,9 @@ pub fn generate(seed: u64, tier: &str, sink: &mut Sink) {
             // bytes): what has arrived is shown without waiting, too
             let reads = if rng.chance(1, 6) {
                 let mut ops = vec![];
-                for _ in 0..nreads {
+                // a `fill_buf` shows at most one buffer's worth (8 KiB) whatever `size` is: enough pairs to
+                // reach the stall (a schedule that ended before it would be read as "blocked early")
+                for _ in 0..nreads + segs.len() + must / size.min(2048) + 3 {
                     ops.push(crate::resp::BOp::Fill);
                     ops.push(crate::resp::BOp::ConsumeUpTo(size));
                 }
